@@ -114,3 +114,46 @@ func VH_C17_index_stop() {
 	}
 	verifReach("end")
 }
+
+// Stopping on a row whose record spills to an overflow page (the scan adapter
+// assembles such rows on a different path from inline ones).
+//verif:bounds table leaf of 3 rows each spilling to one overflow page (rowids, values symbolic); the callback asks to stop at its k-th call, k = 1..4
+func VH_C17_overflow_stop() {
+	e := vhNewEnv()
+	l := &tableLeaf{}
+	var rows []vhRow
+	for i := 0; i < 3; i++ {
+		r := vhRow{rowid: verifInt64(), val: verifInt64()}
+		if i > 0 {
+			verifAssume(rows[i-1].rowid < r.rowid)
+		}
+		rows = append(rows, r)
+		full := vhRecInt(r.val).Payload
+		pg := make([]byte, 512)
+		copy(pg[4:], full[4:])
+		id := 200 + i
+		e.pager.IDs = append(e.pager.IDs, id)
+		e.pager.Bufs = append(e.pager.Bufs, pg)
+		l.cells = append(l.cells, tableLeafCell{left: r.rowid, payload: cellPayload{Length: int64(len(full)), Payload: full[:4], Overflow: id}})
+	}
+	t := &Table{db: e.db, root: e.newPage(l)}
+	k := 1 + verifChoice(4)
+	calls := 0
+	var ids, vals []int64
+	err := t.Scan(func(id int64, r Record) bool {
+		calls++
+		v, _ := r[0].(int64)
+		ids, vals = append(ids, id), append(vals, v)
+		return calls >= k
+	})
+	verifAssert(err == nil, "a stopped scan is not an error")
+	want := k
+	if want > 3 {
+		want = 3
+	}
+	verifAssert(calls == want, "exactly min(k, N) callbacks")
+	for i := range ids {
+		verifAssert(i < 3 && ids[i] == rows[i].rowid && vals[i] == rows[i].val, "the rows delivered are the first ones")
+	}
+	verifReach("end")
+}
